@@ -277,12 +277,16 @@ impl End {
 enum Net {
     Pair { b: End, relay: Arc<Relay> },
     Raw { sock: Arc<UdpSocket>, from_a: Arc<parking_lot::Mutex<Vec<Cap>>>, keyed: Arc<AtomicBool>, a_addr: Option<SocketAddr>, answer: String,
+          /// answerer role: A's own answer, created but not yet set
+          pending: Option<SessionDescription>,
           /// the remote's own sender (harness side): protects valid inbound packets
           peer_tx: Option<SrtpSession> },
 }
 
 struct Rig {
     mode: String,
+    /// the remote description allows a session to be derived
+    crypto_ok: bool,
     a: End,
     net: Net,
     /// A's transmit keys once known: (profile candidates tried in order, keying material)
@@ -308,7 +312,7 @@ async fn wait_until(ms: u64, mut f: impl FnMut() -> bool) -> bool {
 
 impl Rig {
     /// Bring the scenario to phase "up": everything that can be done without keys.
-    async fn setup(mode: &str, nonce: u16) -> Rig {
+    async fn setup(mode: &str, role: &str, crypto: &str, nonce: u16) -> Rig {
         let tm = match mode {
             "WebRtc" => TransportMode::WebRtc,
             "Srtp" => TransportMode::Srtp,
@@ -363,10 +367,39 @@ impl Rig {
         } else {
             let sock = Arc::new(UdpSocket::bind("127.0.0.1:0").await.unwrap_or_else(|e| tool_error(&format!("bind: {e}"))));
             let port = sock.local_addr().unwrap().port();
-            let offer = a.pc.create_offer().await.unwrap_or_else(|e| tool_error(&format!("offer: {e}")));
-            a.pc.set_local_description(offer).unwrap_or_else(|e| tool_error(&format!("set_local: {e}")));
-            a.pc.wait_for_gathering_complete().await;
-            let local = a.pc.local_description().unwrap();
+            // the remote's description: its media address, and - in Srtp mode - an a=crypto line that is usable or not
+            let mine = Rng(0xC14 ^ nonce as u64).bytes(30);
+            let (proto, crypto_line) = if mode == "Srtp" {
+                match crypto {
+                    "ok" => ("RTP/SAVP", format!("a=crypto:1 AES_CM_128_HMAC_SHA1_80 inline:{}\r\n", probe::b64(&mine))),
+                    "suite" => ("RTP/SAVP", format!("a=crypto:1 F8_128_HMAC_SHA1_80 inline:{}\r\n", probe::b64(&mine))),
+                    "key" => ("RTP/SAVP", format!("a=crypto:1 AES_CM_128_HMAC_SHA1_80 inline:{}\r\n", probe::b64(&mine[..10]))),
+                    _ => ("RTP/AVP", String::new()), // the usual downgrade: no a=crypto at all
+                }
+            } else {
+                ("RTP/AVP", String::new())
+            };
+            let remote_sdp = |pt: &str| {
+                format!(
+                    "v=0\r\no=- 1 1 IN IP4 127.0.0.1\r\ns=-\r\nc=IN IP4 127.0.0.1\r\nt=0 0\r\nm=audio {port} {proto} {pt}\r\n{crypto_line}a=rtpmap:{pt} opus/48000/2\r\na=rtcp-mux\r\na=rtcp-fb:{pt} nack\r\na=ssrc:3405691582 cname:x\r\na=sendrecv\r\n"
+                )
+            };
+            // A's side of the exchange, as far as it goes without keys
+            let (local, pending) = if role == "answerer" {
+                let offer = SessionDescription::parse(SdpType::Offer, &remote_sdp("111")).unwrap_or_else(|e| tool_error(&format!("parse offer: {e:?}")));
+                if let Err(e) = a.pc.set_remote_description(offer).await {
+                    notes.push(format!("set_remote_description(offer) failed: {e}"));
+                }
+                match a.pc.create_answer().await {
+                    Ok(ans) => (ans.clone(), Some(ans)),
+                    Err(e) => tool_error(&format!("create_answer: {e}")),
+                }
+            } else {
+                let offer = a.pc.create_offer().await.unwrap_or_else(|e| tool_error(&format!("offer: {e}")));
+                a.pc.set_local_description(offer).unwrap_or_else(|e| tool_error(&format!("set_local: {e}")));
+                a.pc.wait_for_gathering_complete().await;
+                (a.pc.local_description().unwrap(), None)
+            };
             let sec = &local.media_sections[0];
             let pt = sec.formats.first().cloned().unwrap_or("111".into());
             let a_ip: std::net::IpAddr = sec
@@ -378,9 +411,8 @@ impl Rig {
             let a_addr = SocketAddr::new(a_ip, sec.port);
             let mut peer_tx = None;
             let mut a_tx = vec![];
-            let (proto, crypto) = if mode == "Srtp" {
-                // A's transmit key is in its offer; the remote's (ours) goes into the answer
-                let mine = Rng(0xC14 ^ nonce as u64).bytes(30);
+            if mode == "Srtp" {
+                // A's transmit key is in its own description; the remote protects with `mine`
                 for at in &sec.attributes {
                     if at.key == "crypto" {
                         if let Some(v) = &at.value {
@@ -393,19 +425,16 @@ impl Rig {
                         }
                     }
                 }
-                peer_tx = SrtpSession::new(
-                    SrtpProfile::Aes128Sha1_80,
-                    SrtpKeyingMaterial::new(mine[..16].to_vec(), mine[16..30].to_vec()),
-                    SrtpKeyingMaterial::new(vec![0; 16], vec![0; 14]),
-                )
-                .ok();
-                ("RTP/SAVP", format!("a=crypto:1 AES_CM_128_HMAC_SHA1_80 inline:{}\r\n", probe::b64(&mine)))
-            } else {
-                ("RTP/AVP", String::new())
-            };
-            let answer = format!(
-                "v=0\r\no=- 1 1 IN IP4 127.0.0.1\r\ns=-\r\nc=IN IP4 127.0.0.1\r\nt=0 0\r\nm=audio {port} {proto} {pt}\r\n{crypto}a=rtcp-mux\r\na=rtcp-fb:{pt} nack\r\na=ssrc:3405691582 cname:x\r\na=sendrecv\r\n"
-            );
+                if crypto == "ok" {
+                    peer_tx = SrtpSession::new(
+                        SrtpProfile::Aes128Sha1_80,
+                        SrtpKeyingMaterial::new(mine[..16].to_vec(), mine[16..30].to_vec()),
+                        SrtpKeyingMaterial::new(vec![0; 16], vec![0; 14]),
+                    )
+                    .ok();
+                }
+            }
+            let answer = remote_sdp(&pt);
             let from_a = Arc::new(parking_lot::Mutex::new(Vec::new()));
             let keyed = Arc::new(AtomicBool::new(false));
             {
@@ -425,11 +454,10 @@ impl Rig {
                     }
                 });
             }
-            let mut rig_net = Net::Raw { sock, from_a, keyed, a_addr: Some(a_addr), answer, peer_tx };
-            if let Net::Raw { .. } = &mut rig_net {}
-            return Rig { mode: mode.into(), a, net: rig_net, a_tx, keyed: false, closed: false, in_seq: 100, notes };
+            let rig_net = Net::Raw { sock, from_a, keyed, a_addr: Some(a_addr), answer, pending, peer_tx };
+            return Rig { mode: mode.into(), crypto_ok: crypto == "ok", a, net: rig_net, a_tx, keyed: false, closed: false, in_seq: 100, notes };
         };
-        Rig { mode: mode.into(), a, net, a_tx: vec![], keyed: false, closed: false, in_seq: 100, notes }
+        Rig { mode: mode.into(), crypto_ok: true, a, net, a_tx: vec![], keyed: false, closed: false, in_seq: 100, notes }
     }
 
     fn captured(&self) -> Vec<Cap> {
@@ -466,19 +494,36 @@ impl Rig {
                     }
                 }
             }
-            Net::Raw { keyed, answer, .. } => {
-                keyed.store(true, Ordering::SeqCst); // from here on A knows both a=crypto lines
-                let an = SessionDescription::parse(SdpType::Answer, answer).unwrap_or_else(|e| tool_error(&format!("parse answer: {e:?}")));
-                if let Err(e) = self.a.pc.set_remote_description(an).await {
-                    self.notes.push(format!("set_remote_description(answer) failed: {e}"));
+            Net::Raw { keyed, answer, pending, .. } => {
+                // from here on A knows both descriptions; a session exists iff the remote a=crypto is usable
+                if self.crypto_ok {
+                    keyed.store(true, Ordering::SeqCst);
+                }
+                let r = match pending.take() {
+                    Some(ans) => self.a.pc.set_local_description(ans).map_err(|e| e.to_string()),
+                    None => {
+                        let an = SessionDescription::parse(SdpType::Answer, answer).unwrap_or_else(|e| tool_error(&format!("parse answer: {e:?}")));
+                        self.a.pc.set_remote_description(an).await.map_err(|e| e.to_string())
+                    }
+                };
+                if let Err(e) = r {
+                    if self.crypto_ok {
+                        self.notes.push(format!("applying the last description failed: {e}"));
+                    }
                 }
                 let pa = self.a.pc.clone();
-                match tokio::time::timeout(Duration::from_secs(5), pa.wait_for_connected()).await {
-                    Err(_) => self.notes.push("connection did not report Connected within 5 s".into()),
-                    Ok(Err(e)) => self.notes.push(format!("connection failed: {e}; reason {:?}", self.a.pc.disconnect_reason())),
-                    Ok(Ok(())) => {}
+                match tokio::time::timeout(Duration::from_secs(if self.crypto_ok { 5 } else { 1 }), pa.wait_for_connected()).await {
+                    Err(_) if self.crypto_ok => self.notes.push("connection did not report Connected within 5 s".into()),
+                    Ok(Err(e)) if self.crypto_ok => self.notes.push(format!("connection failed: {e}; reason {:?}", self.a.pc.disconnect_reason())),
+                    _ => {} // without usable a=crypto the connection is expected to fail (and must stay shut)
                 }
             }
+        }
+        if !self.crypto_ok {
+            // phase "failed": no session can exist; give the transport start a moment to run its course
+            tokio::time::sleep(Duration::from_millis(30)).await;
+            self.a.pc.add_observer(self.a.obs.clone());
+            return;
         }
         self.keyed = true;
         self.a.pc.add_observer(self.a.obs.clone());
@@ -573,6 +618,9 @@ impl Rig {
     async fn step(&mut self, op: &str, k: usize) {
         // (observers can only be registered once the transport exists; registration is idempotent)
         self.a.pc.add_observer(self.a.obs.clone());
+        if self.mode == "Srtp" && !self.crypto_ok && matches!(op, "InValid" | "Gap" | "InValidNack") {
+            return; // no keys can ever exist: the remote has no way to send anything valid
+        }
         match op {
             "Push" => {
                 let mut p = OUT_MARK.to_vec();
@@ -953,7 +1001,9 @@ async fn run_edge_once(case: &Value, idx: usize, out: &mut NdjsonOut, stats: &mu
     ops.push(case["act"].as_str().unwrap().to_string());
     let exp = case["exp"].as_array().unwrap();
     let (exp_w, exp_d, exp_dx) = (exp[0].as_str().unwrap_or("").to_string(), exp[1].as_u64().unwrap_or(0), exp[4].as_u64().unwrap_or(1));
-    let mut rig = Rig::setup(&mode, idx as u16).await;
+    let role = case.get("role").and_then(|v| v.as_str()).unwrap_or("offerer").to_string();
+    let crypto = case.get("crypto").and_then(|v| v.as_str()).unwrap_or("ok").to_string();
+    let mut rig = Rig::setup(&mode, &role, &crypto, idx as u16).await;
     let mut before = (0usize, 0usize, 0usize); // wire, track, observer counts before the last step
     let mut fb_before = 0usize;
     let mut fb_total = 0usize;
@@ -1092,7 +1142,7 @@ async fn run_edge_once(case: &Value, idx: usize, out: &mut NdjsonOut, stats: &mu
         divs.push(json!({"rule": "EXT", "field": "inconclusive", "observed": n}));
     }
     if std::env::var("GATE_DEBUG").is_ok() {
-        eprintln!("{mode} {ops:?}: wire {} (last '{last_w}' exp '{exp_w}') track {} obs {} fb {fb_total} (last_d {last_d} exp {exp_d} dx {exp_dx}) notes {:?}",
+        eprintln!("{mode}/{role}/{crypto} {ops:?}: wire {} (last '{last_w}' exp '{exp_w}') track {} obs {} fb {fb_total} (last_d {last_d} exp {exp_d} dx {exp_dx}) notes {:?}",
                   caps.len(), got.len(), ing.len(), rig.notes);
     }
     stats.scenarios += 1;
@@ -1100,7 +1150,7 @@ async fn run_edge_once(case: &Value, idx: usize, out: &mut NdjsonOut, stats: &mu
         stats.diverged += 1;
     }
     for d in divs {
-        let mut rec = json!({"type": "divergence", "level": "pc", "behaviour": idx, "mode": mode, "op": ops.last().unwrap(),
+        let mut rec = json!({"type": "divergence", "level": "pc", "behaviour": idx, "mode": mode, "role": role, "crypto": crypto, "op": ops.last().unwrap(),
                              "ops": ops, "keyed": rig.keyed, "case": case});
         for (k2, v2) in d.as_object().unwrap() {
             rec[k2] = v2.clone();
